@@ -98,6 +98,7 @@ PROPS["C17"] = {
     "monitors": [
         {"name": "C17.cache.small", "test": "TestVerifC17CacheSmall", "shards": 16, "bubble": False},
         {"name": "C17.cache.rand", "test": "TestVerifC17CacheRand", "shards": 16, "bubble": False},
+        {"name": "C17.gossip", "test": "TestVerifC17Gossip", "shards": 16},
     ],
 }
 
